@@ -19,7 +19,7 @@
 From PV Require Import Base.Prelude Base.Decimal MaildirFS.FS MaildirFS.UidList MaildirFS.Ops
   MaildirFS.Spec MaildirFS.Legal MaildirFS.Examples
   MaildirFS.UidListProofs MaildirFS.DurabilityProofs MaildirFS.LegalProofs MaildirFS.CrashProofs
-  MaildirFS.CommandProofs MaildirFS.RecoverProofs.
+  MaildirFS.CommandProofs MaildirFS.RecoverProofs MaildirFS.Delete MaildirFS.DeleteProofs.
 
 (* ---- the text formats: a completely written file is always readable *)
 Theorem C15_uidlist_roundtrip : forall u,
@@ -191,3 +191,120 @@ Print Assumptions C15_refuted_stale_lock.
 Theorem C15_example_inv : inv_b ex_fs0 = true /\ length ex_ops = 34%nat.
 Proof. exact ex_inv. Qed.
 Print Assumptions C15_example_inv.
+
+(* ==== round 5: DELETE, external deliveries and the adopting scan in the
+   histories (MaildirFS/Delete.v: [xcmd] = XC c (a command of Ops.cmd) |
+   XDelete f order | XDeliver f sub key info cid | XScan f tmp ids;
+   [run_xcmd], [xhist_ops]; [xlegal_ops_b] = [legal_ops_b] plus the two kinds
+   of operation only DELETE performs: rmdir and the unlink of a control file,
+   never in the INBOX) *)
+
+(* DELETE performs only legal operations, whatever the state and the order
+   in which the directory is walked *)
+Theorem C15_delete_legal : forall lay m sel f order,
+  xlegal_ops_b lay m (o_ops (run_xcmd lay m sel (XDelete f order))) = true.
+Proof. exact delete_legal. Qed.
+Print Assumptions C15_delete_legal.
+
+(* every operation of every history over the extended alphabet is legal
+   where it is applied (delivery: Maildir-style tmp + link with a fresh key;
+   adoption: the rewritten uid list extends the old one) *)
+Theorem C15_xhistory_legal : forall lay h m sel,
+  Inv m -> xlegal_ops_b lay m (xhist_ops lay m sel h) = true.
+Proof. exact xhist_ops_legal. Qed.
+Print Assumptions C15_xhistory_legal.
+
+(* control files stay readable at every crash point of every history with
+   DELETEs and deliveries: the invariant holds on what a kill leaves *)
+Theorem C15_xhistory_control_files_readable : forall lay m sel h k,
+  Inv m -> Inv (after_crash lay m (xhist_ops lay m sel h) k).
+Proof. exact xhist_crash_inv. Qed.
+Print Assumptions C15_xhistory_control_files_readable.
+
+(* a history with deliveries and scans but without DELETE consists of legal
+   operations in the original sense: C15_acked_messages_survive,
+   C15_uid_never_reassigned, C15_files_never_rewritten, C15_history_reaches_inv
+   apply to it unchanged (they are stated for any legal operation list) *)
+Theorem C15_delivery_histories_legal : forall lay h m sel,
+  Inv m -> forallb no_delete h = true -> legal_ops_b lay m (xhist_ops lay m sel h) = true.
+Proof. exact xhist_no_delete_legal. Qed.
+Print Assumptions C15_delivery_histories_legal.
+
+(* at every crash prefix of a DELETE f, every path a restarted server looks at
+   outside folder f is as before: the other folders, the INBOX, the
+   subscriptions *)
+Theorem C15_delete_crash_isolated : forall lay m sel f order k q,
+  junk q = false -> folder_of q <> f ->
+  lookup (after_crash lay m (o_ops (run_xcmd lay m sel (XDelete f order))) k) q = lookup m q.
+Proof. exact delete_crash_isolated. Qed.
+Print Assumptions C15_delete_crash_isolated.
+
+Theorem C15_delete_crash_others_served : forall lay m sel f order k g v uid key fl c,
+  g <> f -> serves m g v uid key fl c ->
+  serves (after_crash lay m (o_ops (run_xcmd lay m sel (XDelete f order))) k) g v uid key fl c.
+Proof. exact delete_crash_serves_other. Qed.
+Print Assumptions C15_delete_crash_others_served.
+
+Theorem C15_delete_keeps_subscriptions : forall lay m sel f order k,
+  is_root f = false ->
+  recover_subs (after_crash lay m (o_ops (run_xcmd lay m sel (XDelete f order))) k)
+  = recover_subs m.
+Proof. exact delete_crash_subs. Qed.
+Print Assumptions C15_delete_keeps_subscriptions.
+
+(* the half-deleted folder is served consistently or not at all: whatever a
+   restarted server serves after a kill inside DELETE was served before, with
+   the same UIDVALIDITY, uid, flags and content *)
+Theorem C15_delete_crash_consistent : forall lay m sel f order k g v uid key fl c,
+  serves (after_crash lay m (o_ops (run_xcmd lay m sel (XDelete f order))) k) g v uid key fl c ->
+  serves m g v uid key fl c.
+Proof. exact delete_crash_serves_back. Qed.
+Print Assumptions C15_delete_crash_consistent.
+
+(* an acknowledged DELETE leaves nothing of the folder a server looks at *)
+Theorem C15_delete_acked_gone : forall lay m sel f order m',
+  let o := run_xcmd lay m sel (XDelete f order) in
+  o_ack o = AOk -> apply_ops lay m (o_ops o) = (m', true) ->
+  forall p, junk p = false -> folder_of p = f -> lookup m' p = None.
+Proof. exact delete_acked_gone. Qed.
+Print Assumptions C15_delete_acked_gone.
+
+(* DELETE f then CREATE f: no file and no uid list of the old folder is left
+   to be adopted or read; the new folder has the empty uid list of the freshly
+   drawn validity and serves nothing — no uid of the deleted mailbox comes back *)
+Theorem C15_delete_then_create_fresh : forall lay m sel f order m1 val guid tmp m2,
+  let o1 := run_xcmd lay m sel (XDelete f order) in
+  o_ack o1 = AOk -> apply_ops lay m (o_ops o1) = (m1, true) ->
+  let o2 := run_cmd lay m1 (o_sel o1) (CCreate f val guid tmp) in
+  o_ack o2 = AOk -> apply_ops lay m1 (o_ops o2) = (m2, true) ->
+  files_of m1 f = [] /\ read_uidl m1 f = None
+  /\ uidl_at m2 f {| u_val := val; u_next := 1; u_guid := guid; u_recs := [] |}
+  /\ (forall u, uidl_at m2 f u -> u_val u = val /\ u_recs u = [])
+  /\ (forall v uid key fl c, ~ serves m2 f v uid key fl c).
+Proof. exact delete_then_create_fresh. Qed.
+Print Assumptions C15_delete_then_create_fresh.
+
+(* a file dropped into new/ or cur/ by a delivery agent is adopted by the next
+   scan with a uid at or above the list's counter — never a recorded uid —,
+   existing records, the validity and the uid discipline are kept *)
+Theorem C15_delivery_adopted_fresh : forall u l,
+  uids_ok u ->
+  let u' := adopt u l in
+  u_val u' = u_val u /\ uids_ok u'
+  /\ exists extra, u_recs u' = u_recs u ++ extra
+     /\ length extra = length l
+     /\ (forall r, In r extra -> (u_next u <= r_uid r < u_next u')%N
+                                 /\ ~ In (r_uid r) (map r_uid (u_recs u))).
+Proof. exact adoption_fresh. Qed.
+Print Assumptions C15_delivery_adopted_fresh.
+
+(* ... and that is what a restarted server serves from a folder with files
+   awaiting adoption *)
+Theorem C15_recover_adopts : forall m f u,
+  folder_ok m f = true -> exists_ m (PCtl f CUidlLock) = false -> uidl_at m f u ->
+  let unk := unknown_files u (files_of m f) in
+  recover_folder m f
+  = VServed (Some (u_val u)) (u_next u + N.of_nat (length unk))%N
+            (serve (adopt u unk) (files_of m f)).
+Proof. exact recover_adopts. Qed.
+Print Assumptions C15_recover_adopts.
